@@ -42,6 +42,61 @@ theorem mutant_differs_only_at (t : Tree) (q : Path) (r : Tree) :
       ∃ s', (t.replaceAt q r).get? p = some s' ∧ s'.label = s.label ∧ s'.kids.length = s.kids.length) :=
   ⟨fun p h1 h2 => get?_replaceAt_incomparable t q r p h1 h2, fun p s h1 h2 h3 => get?_replaceAt_above t q r p s h1 h2 h3⟩
 
+/-! ### placeholders in child lists (`None` in `arguments.kw_defaults` / `Dict.keys`, identifier strings)
+
+A child list may mix nodes with entries that are not nodes.  Such an entry is a `Tree.hole`: it keeps its
+position in the list — the index `_generic_visit_list` writes through is the position in the real list, so
+slot paths count placeholders — but no frame exists for it.  All theorems of this file are stated for
+every `Tree`, hence for trees with placeholders anywhere; the statements below make explicit what that
+means for the placeholders themselves. -/
+
+/-- **Only node slots are touched.**  Every heap write of an operator generator (applying a mutation,
+re-yielding through the ancestors, restoring) goes to the slot of a real node of the tree, and every
+yielded mutation mutates a real node: no placeholder entry is ever overwritten or "restored", whatever
+the tree, operator, target and start heap. -/
+theorem generator_touches_only_node_slots (op : Op) (tgt : Target) (t : Tree) (h : Heap) :
+    (∀ q c, Ev.write q c ∈ mutateEvs op tgt h t → t.nodeAt q) ∧
+    (∀ i ∈ yields (mutateEvs op tgt h t), t.nodeAt i.path) := by
+  refine ⟨fun q c he => slot_visit op tgt t h [] _ he, fun i hi => ?_⟩
+  have : Ev.yield i ∈ mutateEvs op tgt h t := by
+    generalize mutateEvs op tgt h t = es at hi
+    induction es with
+    | nil => simp [yields] at hi
+    | cons e es ih =>
+      cases e with
+      | write q c => exact List.mem_cons_of_mem _ (ih (by simpa [yields] using hi))
+      | yield j =>
+        simp only [yields, List.mem_cons] at hi
+        rcases hi with rfl | hi
+        · exact List.mem_cons_self
+        · exact List.mem_cons_of_mem _ (ih hi)
+  exact slot_visit op tgt t h [] _ this
+
+/-- **Placeholders survive in every mutant.**  A mutant (original with the subtree at the path `q` of a
+real node replaced) still has every placeholder of the original at its position — same list index, same
+value —, except those inside the replaced subtree itself. -/
+theorem placeholder_kept_in_mutant (t : Tree) (q : Path) (r : Tree) (p : Path) (v : Nat)
+    (hp : t.get? p = some (.hole v)) (hq : t.nodeAt q) (hout : ¬ q <+: p) :
+    (t.replaceAt q r).get? p = some (.hole v) := by
+  obtain ⟨l, ks, hq⟩ := hq
+  rw [get?_replaceAt_incomparable t q r p ?_ hout, hp]
+  intro hpq
+  have := get?_hole_prefix t p q v _ hp hpq hq
+  subst this
+  rw [hp] at hq
+  cases hq
+
+/-- Why positions must count placeholders: with `kw_defaults = [None, 1]` (`def f(*, a, b=1)`), writing the
+mutant of the default through its index among the NODES of the list (`0`) instead of its list position
+(`1`) overwrites the placeholder and leaves the mutated slot untouched — not the mutant of that mutation. -/
+theorem placeholder_index_shift_cex :
+    let t := Tree.node 0 [.hole 5, .node 1 []]
+    let r := Tree.node 9 []
+    readRoot t (Heap.clean.set [1] (some r)) = .node 0 [.hole 5, r] ∧
+    readRoot t (Heap.clean.set [0] (some r)) = .node 0 [r, .node 1 []] ∧
+    readRoot t (Heap.clean.set [0] (some r)) ≠ t.replaceAt [1] r := by
+  decide
+
 /-- Higher order: applying a second mutation on a tree that already carries others changes, again, only
 the slot of its own node (so a mutant of order k differs from the original only at its k mutated nodes);
 this is `mutant_heap_at_yield` for an arbitrary start heap, read through `read`. -/
@@ -354,5 +409,26 @@ example : (yields (mutateEvs exOp0 (some ([1, 1], 2)) Heap.clean exTree)).map (f
 /-- hypotheses of `mutant_differs_only_at` / `hom_mutant_read` on a concrete second-order mutant -/
 example : (exTree.replaceAt [0] (.node 9 [])).replaceAt [1, 1] (.node 7 []) =
     .node 0 [.node 9 [], .node 2 [.node 3 [], .node 7 []]] := by decide
+
+
+/-! non-vacuity with placeholders: the shape of `kw_defaults = [None, 1, None, {**base, 'k': 2}]`
+(`def f(*, a, b=1, c, d={**base, 'k': 2})`): slots `[hole, node 1, hole, node 2 [hole, node 3]]`; the first
+default and the dict value behind the `**` placeholder are rewritten -/
+def phTree : Tree := .node 0 [.hole 5, .node 1 [], .hole 5, .node 2 [.hole 6, .node 3 []]]
+def phOp : Op := ⟨fun p _ => if p = [1] then [(0, .node 9 [])] else if p = [3, 1] then [(1, .node 8 [])] else []⟩
+
+/-- the mutations are reported at their list positions (placeholders counted) … -/
+example : (yields (mutateEvs phOp none Heap.clean phTree)).map (fun i => (i.path, i.name)) = [([1], 0), ([3, 1], 1)] := by
+  decide
+/-- … the mutants keep every placeholder in place … -/
+example : (historicalF phTree [phOp] 0 Heap.clean).map (·.2) =
+    [.node 0 [.hole 5, .node 9 [], .hole 5, .node 2 [.hole 6, .node 3 []]],
+     .node 0 [.hole 5, .node 1 [], .hole 5, .node 2 [.hole 6, .node 8 []]]] := by decide
+/-- … and the hypotheses of `placeholder_kept_in_mutant` hold (placeholder `[2]`, mutated node `[3, 1]`) -/
+example : phTree.get? [2] = some (.hole 5) ∧ phTree.nodeAt [3, 1] ∧ ¬ [3, 1] <+: [2] :=
+  ⟨by decide, ⟨3, [], by decide⟩, by decide⟩
+/-- a regenerated (targeted) mutation behind a placeholder, exhausted: heap restored (`applyOne_spec`) -/
+example : (applyOne [phOp] phTree (0, ⟨[3, 1], 1, .node 8 []⟩) Heap.clean).toOption.map (fun y => y.1.2) =
+    some (.node 0 [.hole 5, .node 1 [], .hole 5, .node 2 [.hole 6, .node 8 []]]) := by decide
 
 end PynguinModel.Mutants
